@@ -3,12 +3,19 @@
 //! This module contains a global variable, SUIRON_STOP_QUERY,
 //! and therefore has 'unsafe' code.
 
+use std::sync::Mutex;
 use std::time::Duration;
 use thread_timer::ThreadTimer;
 
 use super::logic_var::*;
 
 static mut SUIRON_STOP_QUERY: bool = false;
+
+// Each query timer belongs to a generation. A timer may only stop the
+// query while its generation is current. cancel_timer() ends the generation,
+// because the timer thread can still be about to run the timeout function
+// when cancel() returns. (Otherwise it would stop the next query.)
+static TIMER_GENERATION: Mutex<u64> = Mutex::new(0);
 
 /// Create a timer with a timeout in milliseconds.
 ///
@@ -29,6 +36,11 @@ pub fn start_query_timer(milliseconds: u64) -> ThreadTimer {
     unsafe { SUIRON_STOP_QUERY = false; }
     #[cfg(suiron_verif)]
     crate::verif_hooks::tlog("timer_start");
+    let generation = {
+        let mut current = TIMER_GENERATION.lock().unwrap();
+        *current += 1;
+        *current
+    };
     let timer = ThreadTimer::new();
     timer.start(Duration::from_millis(milliseconds),
                 move || {
@@ -36,12 +48,19 @@ pub fn start_query_timer(milliseconds: u64) -> ThreadTimer {
                     {
                         crate::verif_hooks::tlog("expired");
                         crate::verif_hooks::before_timer_callback();
-                        crate::verif_hooks::tlog("fire_begin");
                     }
-                    stop_query();
+                    // Only the timer of the current query stops the query.
+                    let current = TIMER_GENERATION.lock().unwrap();
+                    if *current == generation {
+                        #[cfg(suiron_verif)]
+                        crate::verif_hooks::tlog("fire_begin");
+                        stop_query();
+                        #[cfg(suiron_verif)]
+                        crate::verif_hooks::tlog("fire_end");
+                    }
                     #[cfg(suiron_verif)]
                     {
-                        crate::verif_hooks::tlog("fire_end");
+                        if *current != generation { crate::verif_hooks::tlog("fire_skipped"); }
                         crate::verif_hooks::after_timer_callback();
                     }
                 }).unwrap();
@@ -72,6 +91,11 @@ pub fn cancel_timer(timer: ThreadTimer) {
             crate::verif_hooks::tlog("cancel_end_notwaiting");
         },
     }
+    // From now on, this timer cannot stop a query.
+    let mut current = TIMER_GENERATION.lock().unwrap();
+    *current += 1;
+    #[cfg(suiron_verif)]
+    crate::verif_hooks::tlog("invalidated");
 } // cancel_timer()
 
 /// Sets the SUIRON_STOP_QUERY flag to false and LOGIC_VAR_ID to 0.
